@@ -13,6 +13,11 @@ from .types import *
 from .theory import seq_theory
 
 
+class PPool:
+    """a multiprocessing.Pool bound by `with Pool(...) as pool` (contract option pool_model)"""
+    t = None
+
+
 class Unsupported(Exception):
     pass
 
@@ -83,7 +88,8 @@ class ZipSeqs(list):
 
 class FunctionSpec:
     def __init__(self, qual, file, params, returns=None, requires=None, ensures=None, modifies=(), raises=None, loops=None,
-                 locals=None, decreases=None, generator=False, defaults=None, cls=None, ghost=None, pure=False, note='', name=None, constructs=None, globals_=None, isinstance_preds=None, opaque_functions=(), numpy_division=False, returns_optional=False, var_keyword=False, lemmas=None, region=None, may_raise=()):
+                 locals=None, decreases=None, generator=False, defaults=None, cls=None, ghost=None, pure=False, note='', name=None, constructs=None, globals_=None, isinstance_preds=None, opaque_functions=(), numpy_division=False, returns_optional=False, var_keyword=False, lemmas=None, region=None, may_raise=(), deterministic=False, pool_model=False):
+        self.deterministic = deterministic; self.pool_model = pool_model
         self.may_raise = set(may_raise); self.region = region; self.lemmas = lemmas or {}; self.returns_optional = returns_optional; self.var_keyword = var_keyword; self.name = name or qual; self.constructs = constructs; self.globals_ = globals_ or {}; self.isinstance_preds = isinstance_preds or {}; self.opaque_functions = set(opaque_functions); self.numpy_division = numpy_division
         self.qual, self.file, self.params, self.returns = qual, file, params, returns
         self.requires = requires or (lambda o: BoolVal(True)); self.ensures = ensures or (lambda o, n, r: [])
@@ -410,6 +416,10 @@ class Engine:
             if c is True: return F()
             bad = st.clone(); bad.pc.append(Not(c) if c is not False else BoolVal(True)); st.pc.append(c if c is not False else BoolVal(False))
             return [Outcome(bad, 'raise', exc='AssertionError'), Outcome(st, 'fall')]
+        if isinstance(s, ast.With) and self.spec.pool_model and len(s.items) == 1 and isinstance(s.items[0].context_expr, ast.Call) and isinstance(s.items[0].context_expr.func, ast.Name) \
+                and s.items[0].context_expr.func.id == 'Pool' and isinstance(s.items[0].optional_vars, ast.Name):
+            # `with Pool(...) as pool:`  (contract option pool_model): the pool is an opaque library value; what it does is the ASSUMED contract of apply_async / get (exprs.call_method)
+            st.env[s.items[0].optional_vars.id] = PPool(); return self.block(s.body, st)
         if isinstance(s, ast.If): return self.if_stmt(s, st)
         if isinstance(s, ast.For): return self.for_loop(s, st)
         if isinstance(s, ast.While): return self.while_loop(s, st)
